@@ -29,3 +29,39 @@ Print mism_vfee.
 Definition mism_coinhours := Eval vm_compute in
   failing (fun c : Z * Z * Z * Z * res (Z * error) => let '(tm, co, ho, t, o) := c in res_ze_matches (UxOut_CoinHours tm co ho t) o) cases_coinhours.
 Print mism_coinhours.
+
+(* ---- loops over slices of structs (Gen/CoinLoops.v, Gen/FeeTxn.v): the regenerated
+   Gallina on the projections named in the translator's manifest
+   (inputs: (Head.Time, Body.Coins, Body.Hours); outputs: Coins / Hours) vs what
+   the six Go functions returned on the same (head time, inputs, outputs) *)
+Definition lcase := (Z * list (Z * Z * Z) * list (Z * Z) * res (Z * error) * res (Z * error) *
+  res (Z * error) * res error * res error * res (Z * error) * Z * Z * res error)%type.
+Definition lp_in_coins (ins : list (Z * Z * Z)) : list Z := map (fun i => snd (fst i)) ins.
+Definition mism_l_oh := Eval vm_compute in
+  failing (fun c : lcase => let '(T, ins, outs, oh, uxc, uxh, vcs, vhs, fe, vf, burn, vtf) := c in
+    res_ze_matches (CoinLoops.Transaction_OutputHours (map snd outs)) oh) cases_loops.
+Print mism_l_oh.
+Definition mism_l_uxcoins := Eval vm_compute in
+  failing (fun c : lcase => let '(T, ins, outs, oh, uxc, uxh, vcs, vhs, fe, vf, burn, vtf) := c in
+    res_ze_matches (CoinLoops.UxArray_Coins (lp_in_coins ins)) uxc) cases_loops.
+Print mism_l_uxcoins.
+Definition mism_l_uxhours := Eval vm_compute in
+  failing (fun c : lcase => let '(T, ins, outs, oh, uxc, uxh, vcs, vhs, fe, vf, burn, vtf) := c in
+    res_ze_matches (CoinLoops.UxArray_CoinHours ins T) uxh) cases_loops.
+Print mism_l_uxhours.
+Definition mism_l_vcs := Eval vm_compute in
+  failing (fun c : lcase => let '(T, ins, outs, oh, uxc, uxh, vcs, vhs, fe, vf, burn, vtf) := c in
+    res_e_matches (CoinLoops.VerifyTransactionCoinsSpending (lp_in_coins ins) (map fst outs)) vcs) cases_loops.
+Print mism_l_vcs.
+Definition mism_l_vhs := Eval vm_compute in
+  failing (fun c : lcase => let '(T, ins, outs, oh, uxc, uxh, vcs, vhs, fe, vf, burn, vtf) := c in
+    res_e_matches (CoinLoops.VerifyTransactionHoursSpending T ins (map snd outs)) vhs) cases_loops.
+Print mism_l_vhs.
+Definition mism_l_txfee := Eval vm_compute in
+  failing (fun c : lcase => let '(T, ins, outs, oh, uxc, uxh, vcs, vhs, fe, vf, burn, vtf) := c in
+    res_ze_matches (FeeTxn.TransactionFee (map snd outs) T ins) fe) cases_loops.
+Print mism_l_txfee.
+Definition mism_l_vtf := Eval vm_compute in
+  failing (fun c : lcase => let '(T, ins, outs, oh, uxc, uxh, vcs, vhs, fe, vf, burn, vtf) := c in
+    res_e_matches (FeeTxn.VerifyTransactionFee (map snd outs) vf burn) vtf) cases_loops.
+Print mism_l_vtf.
